@@ -109,5 +109,47 @@ def execute(case):
             "sample": {"row": row, "c": c, "iterations": res["T"], "final_logz": res["final"]}}
 
 
-CHECKS = [Check("shift", cases, execute, n={"quick": 48, "thorough": 1200}, shards={"quick": 16, "thorough": 16},
+def full_cases():
+    from vlib import cfggen
+
+    return st.tuples(cfggen.full_config(allow_extra=False, allow_narrow=False, pools=(None, None, "permuting"), metrics=("ess", "ess", "vv0.3", "vv2")), st.floats(-3.0, 3.0), st.sampled_from([-1.0, 1.0])).map(
+        lambda t: dict(t[0], c=t[2] * 10.0 ** t[1]))
+
+
+def run_full(case, shift):
+    from vlib import cfggen
+
+    t = cfggen.make_target(case, shift)
+    np.random.seed(case["rs_value"] % 2**31)
+    s, _ = cfggen.build(case, target=t, random_state=None)
+    with quiet():
+        lib_call(s.run, n_total=3 * case["n_particles"], progress=False, what=f"Sampler.run (logL{'+c' if shift else ''})")
+    st_ = s.state
+    T = st_.get_history_length()
+    w = lib_call(s.posterior, trim_importance_weights=False, return_logw=True, what="posterior")
+    return {"T": T, "beta": np.array(st_.get_history("beta"), dtype=float), "logz": np.array(st_.get_history("logz"), dtype=float),
+            "ess": np.array(st_.get_history("ess"), dtype=float), "u": [np.asarray(st_.get_history("u", index=i)) for i in range(T)],
+            "x": [np.asarray(st_.get_history("x", index=i)) for i in range(T)],
+            "logl": [np.asarray(st_.get_history("logl", index=i)) for i in range(T)], "calls": list(st_.get_history("calls")),
+            "weights": np.asarray(w[1], dtype=float), "final": float(s.evidence()[0])}
+
+
+def execute_full(case):
+    c = float(case["c"])
+    first = None
+    for attempt in (0, 1):
+        cc = dict(case, rs_value=int(case["rs_value"]) + attempt)
+        A, B = run_full(cc, 0.0), run_full(cc, c)
+        msg, kind = compare(A, B, c)
+        if msg is None:
+            n_anneal = int(np.sum(A["beta"] > 0))
+            return {"nontrivial": n_anneal >= 3 and abs(c) >= 1, "classes": ["metric:" + case["metric"], "mode:" + case["mode"], "pool:%s" % case["pool"]]}
+        if attempt == 0:
+            first = (msg, kind)
+    raise Violation(f"adding c={c!r} to the log-likelihood changes the run: {first[0]} (confirmed with the neighbouring seed: {msg})", sig={"kind": first[1]})
+
+
+CHECKS = [Check("shift_full", full_cases, execute_full, n={"quick": 32, "thorough": 600}, shards={"quick": 16, "thorough": 16},
+                shrink={"quick": False, "thorough": True}),
+          Check("shift", cases, execute, n={"quick": 48, "thorough": 1200}, shards={"quick": 16, "thorough": 16},
                 shrink={"quick": False, "thorough": True})]
